@@ -89,6 +89,7 @@ func lsRunRS(t testing.TB, tr *tracer, sc lsScenario, variant int, alloc bool) {
 	var ents []os.FileInfo
 	var want []string
 	wantSize := map[string]int64{}
+	wantMode := map[string]os.FileMode{}
 	wantOwner := map[string][2]uint32{} // the owner each entry reports (FileInfoUidGid, Sys().(*syscall.Stat_t), or none)
 	for i := 0; i < sc.N; i++ {
 		name := lsName(i, variant)
@@ -98,7 +99,17 @@ func lsRunRS(t testing.TB, tr *tracer, sc lsScenario, variant int, alloc bool) {
 		if variant%3 == 1 && i == sc.N/2 && i != 0 {
 			name = ".."
 		}
-		n := &vnode{name: name, data: make([]byte, 1000+i), mode: os.FileMode(0o600 + i%64), mtime: fixedTime.Add(time.Duration(i) * time.Second),
+		md := os.FileMode(0o600 + i%64)
+		switch i % 5 { // the special bits travel with the entry too
+		case 1:
+			md |= os.ModeSetuid
+		case 2:
+			md |= os.ModeSetgid
+		case 3:
+			md |= os.ModeSticky
+		}
+		wantMode[name] = md
+		n := &vnode{name: name, data: make([]byte, 1000+i), mode: md, mtime: fixedTime.Add(time.Duration(i) * time.Second),
 			uid: uint32(1000 + i), gid: uint32(5000 + i), own: (i + variant) % 4}
 		ents = append(ents, n.asInfo())
 		if _, _, has := n.wireOwner(); has {
@@ -150,7 +161,7 @@ func lsRunRS(t testing.TB, tr *tracer, sc lsScenario, variant int, alloc bool) {
 	attrsok := true
 	for _, fi := range fis {
 		got = append(got, fi.Name())
-		if sz, ok := wantSize[fi.Name()]; ok && (fi.Size() != sz || fi.Mode().Perm() != os.FileMode(0o600+int(sz-1000)%64) || !fi.ModTime().Equal(fixedTime.Add(time.Duration(sz-1000)*time.Second))) {
+		if sz, ok := wantSize[fi.Name()]; ok && (fi.Size() != sz || fi.Mode()&(os.ModePerm|os.ModeSetuid|os.ModeSetgid|os.ModeSticky|os.ModeType) != wantMode[fi.Name()] || !fi.ModTime().Equal(fixedTime.Add(time.Duration(sz-1000)*time.Second))) {
 			attrsok = false
 		}
 		if ow, ok := wantOwner[fi.Name()]; ok {
